@@ -274,7 +274,7 @@ def eval_case(ctx, case):
         eval_chunks(ctx, case, one, [case["chunks"]])
 
 
-MUTATIONS = ["line:delete-field", "line:nonint-priority", "line:no-colon-type", "line:empty", "line:long-name", "line:only-spaces", "header:version3", "header:garbage", "header:no-zlib", "header:truncated", "body:truncated-zlib", "header:trailing-space", "header:crlf"]
+MUTATIONS = ["line:delete-field", "line:nonint-priority", "line:no-colon-type", "line:empty", "line:long-name", "line:only-spaces", "header:version3", "header:garbage", "header:no-zlib", "header:truncated", "body:truncated-zlib", "header:trailing-space", "header:crlf", "header:version-with-trailing-text", "header:format-line-joined", "header:v1-format-line-joined", "header:v1-version-with-trailing-text"]
 
 
 def mutate(R, project, version, rows, which):
@@ -314,6 +314,14 @@ def mutate(R, project, version, rows, which):
         head = head.replace("version 2\n", "version 2  \n")
     elif which == "header:crlf":
         head = head.replace("\n", "\r\n")
+    elif which == "header:version-with-trailing-text":
+        head = head.replace("version 2\n", "version " + R.choice(["2.1", "2x", "02", "2 (draft)", "2 0", "22", "2\t"]) + "\n")
+    elif which == "header:format-line-joined":
+        head = head.replace("version 2\n", "version 2", 1)
+    elif which in ("header:v1-format-line-joined", "header:v1-version-with-trailing-text"):
+        b1 = ser_v1(project, version, v1_lines(rows)).decode("utf8", "surrogateescape")
+        b1 = b1.replace("version 1\n", "version 1" if "joined" in which else "version " + R.choice(["1.0", "1x", "01", "1 (old)", "11"]) + "\n", 1)
+        return b1.encode("utf8", "surrogateescape"), None
     return head.encode() + body, None
 
 
